@@ -359,6 +359,11 @@ type MultiCauseEncoder = func(ctx context.Context, err error) (msg string, safeD
 // or a different type, ensure that RegisterTypeMigration() was called
 // prior to RegisterWrapperEncoder().
 func RegisterWrapperEncoder(theType TypeKey, encoder WrapperEncoder) {
+	if encoder == nil {
+		// Unregister, like the other Register functions do.
+		RegisterWrapperEncoderWithMessageType(theType, nil)
+		return
+	}
 	RegisterWrapperEncoderWithMessageType(
 		theType,
 		func(ctx context.Context, err error) (
